@@ -68,6 +68,11 @@ class Obs:
             self.auto_out.append((op.player_index, 'killed'))
         elif name == 'HoleCardsShowingOrMucking' and not op.hole_cards:
             self.auto_out.append((op.player_index, 'mucked'))
+        elif name == 'HoleCardsShowingOrMucking' and not any(op.hole_cards):
+            # a voluntary face-down "show" (the player's choice, not the
+            # engine's): he plays the board without tabling anything
+            self.facedown = getattr(self, 'facedown', set())
+            self.facedown.add(op.player_index)
         for i in range(n):
             if s.statuses[i]:
                 self.cards[i] = [rs(c) for c in s.hole_cards[i] if c]
@@ -159,13 +164,27 @@ def strategy(tier):
         gen.cases(profiles=(6, 6, 5), stack_styles=(5, 5, 0), **common),
     )
 
+    board_plays = gen.cases(
+        games=('NT', 'FT', 'NS', 'NR'), custom=False, profiles=(6, 6, 5),
+        stack_styles=(5, 0), modes=('C',), boards=(1,),
+        **dict(common, rigs=('boardplays',)))
+
     @st.composite
     def with_order(draw):
+        if draw(st.integers(0, 5)) == 0:
+            # the board plays for everybody; players may keep their cards
+            # face down at the final showdown (documented empty show)
+            case = draw(board_plays)
+            case['show_order'] = 'with_empty_shows'
+            case['config']['autos'] &= ~(1 << 7)
+            return case
         case = draw(base)
         # the engine decides every show/muck; in half of the cases the
         # players come forward in a tape-chosen order (explicit index)
-        case['show_order'] = draw(st.sampled_from([True, 'any_order']))
-        if case['show_order'] == 'any_order':
+        case['show_order'] = draw(st.sampled_from(
+            [True, 'any_order', 'any_order', 'partial_first',
+             'with_empty_shows']))
+        if case['show_order'] != True:  # noqa: E712
             # out-of-turn shows need the showdown in the players' hands
             case['config']['autos'] &= ~(1 << 7)
         return case
@@ -265,6 +284,8 @@ def check(case, stats):
             return out
     for i in range(n):
         if totals[i] > (0 if chip_t in ('int', 'frac') else tol):
+            if i in getattr(obs, 'facedown', ()):
+                continue
             if not s.statuses[i] or not all(s.hole_card_statuses[i]):
                 out.append(V(ID, 'winner_not_tabled', '',
                              f'reference winner {i} ends with statuses'
@@ -281,13 +302,16 @@ def check(case, stats):
         flags.add('multi_board')
     if obs.auto_out:
         flags.add('auto_muck_or_kill')
+    if any(kd == 'show_or_muck_hole_cards' and a == ((),)
+           for kd, a in res.interp.steps):
+        flags.add('voluntary_empty_show')
     if any(kd == 'show_or_muck_hole_cards' and len(a) == 2
            for kd, a in res.interp.steps):
         flags.add('out_of_turn_engine_decided')
     for f in flags:
         stats.count('class:' + f)
     stats.count('tournament_partial_show_probes', h.probes)
-    nontrivial = bool(flags - {'auto_muck_or_kill',
+    nontrivial = bool(flags - {'auto_muck_or_kill', 'voluntary_empty_show',
                                 'out_of_turn_engine_decided'})
     if nontrivial:
         stats.count('nontrivial')
